@@ -8,7 +8,19 @@ from values import (I, S, F, St, En, Tu, Vc, Mp, HS, Seq, Rf, Clo, FnV, Opaque, 
 from builtins_rs import zi
 
 
+OPAQUE_BASE = 10**12
+
+
 class CallsMixin:
+    _fmt_fns = {}
+
+    def is_alternatives(self, s):
+        try:
+            s.leaves()
+            return True
+        except Unsupported:
+            return False
+
     def default_of(self, t):
         """Default::default() for a simple type (name, args)"""
         if t is None:
@@ -101,6 +113,13 @@ class CallsMixin:
     def concat(self, pieces):
         if all(p.conc() for p in pieces):
             return S("".join(p.v for p in pieces))
+        if any(not p.conc() and not self.is_alternatives(p) for p in pieces):
+            # a piece is opaque (formatted free integer): the result is an uninterpreted function of the
+            # opaque pieces, one function symbol per template; equal inputs give equal strings (congruence),
+            # different templates/inputs are NOT forced to differ (over-approximation; counterexamples are replayed)
+            tmpl = tuple(p.v if p.conc() else None for p in pieces)
+            fn = self._fmt_fns.setdefault(tmpl, z3.Function("fmt!%d" % len(self._fmt_fns), *([z3.IntSort()] * (sum(1 for x in tmpl if x is None) + 1))))
+            return S(fn(*[p.z() for p in pieces if not p.conc()]))
         # cross product over the alternatives of the symbolic pieces
         acc = [(True, "")]
         for p in pieces:
@@ -123,7 +142,9 @@ class CallsMixin:
             return S(str(e.as_long()))
         if z3.is_app_of(e, z3.Z3_OP_ITE) and depth < 16:
             return ite(e.arg(0), self.int_to_str(e.arg(1), depth + 1), self.int_to_str(e.arg(2), depth + 1))
-        raise Unsupported("to_string of a free symbolic integer (strings are interned alternatives)")
+        # free integer: an *opaque* string id, injective in the integer and disjoint from all interned
+        # ids (equality of two such strings <=> equality of the integers); its text cannot be inspected
+        return S(z3.If(e >= 0, OPAQUE_BASE + 2 * e, OPAQUE_BASE + 1 - 2 * e))
 
     def to_str(self, v, debug=False):
         v = self.ip.deref(v)
